@@ -1651,6 +1651,8 @@ class Interp:
     def truth(self, v, node=None):
         if isinstance(v, Const):
             return bool(v.v)
+        if isinstance(v, ListV) and getattr(v, 'lazy', False):
+            return True         # an iterator object (generator, zip, map ...) is truthy whether or not anything is left in it
         if isinstance(v, (ListV, TupleV, SetV, DictV)):
             return len(v.items) > 0
         if isinstance(v, (DocV, CtxV, FuncV, Prim, TypeV, AnnotV, BoundV, ObjV, PartialV, ExcV, IterV, OpaqueV, CycleV)):
@@ -2285,6 +2287,8 @@ class Interp:
 
     def p_len(self, a, k, n):
         v = a[0]
+        if isinstance(v, (IterV, CycleV)) or (isinstance(v, ListV) and getattr(v, 'lazy', False)):
+            raise Raised("TypeError: object of type 'generator' has no len()", getattr(n, 'lineno', 0))
         if isinstance(v, (ListV, TupleV, SetV, DictV)):
             return Const(len(v.items))
         if isinstance(v, ValueV) and v.elems is not None:
